@@ -307,6 +307,8 @@ class SimPool:
         ctx = core.CUR
         if ctx is None:
             raise HarnessError("SimPool created outside a simulated case")
+        if processes is not None and int(processes) < 1:
+            raise ValueError("Number of processes must be at least 1")      # as multiprocessing.Pool does
         self.ctx = ctx
         self.id = ctx.pool_seq
         ctx.pool_seq += 1
